@@ -111,6 +111,38 @@ fn grammar(ctx: &mut Ctx, alphabet: &[Tok], maxlen: usize, tag: &str, global: &m
                 let sig = format!("C11 malformed expression {why}: {}", bad_pair(&seq));
                 ctx.rep.violation(&sig, format!("find {:?}\n{detail}", args), json!({"prop":"C11","argv":args,"must_reject":true}));
             }
+            // the same malformed sentence with its operators spelled as words: all of them, and each kind
+            // alone (-not for !, -and for -a, -or for -o), for sentences one token below the bound
+            if len < maxlen && seq.iter().any(|t| matches!(t, Tok::Not | Tok::And | Tok::Or)) {
+                for which in 0..4usize {
+                    let respelled: Vec<Tok> = seq
+                        .iter()
+                        .map(|t| match t {
+                            Tok::Not if which == 0 || which == 1 => Tok::NotWord,
+                            Tok::And if which == 0 || which == 2 => Tok::AndWord,
+                            Tok::Or if which == 0 || which == 3 => Tok::OrWord,
+                            t => *t,
+                        })
+                        .collect();
+                    if respelled == seq {
+                        continue;
+                    }
+                    let mut args = vec!["r"];
+                    args.extend(expr::argv(&respelled));
+                    let got = run_find(&args);
+                    ctx.rep.evaluations += 1;
+                    ctx.rep.nontrivial += 1;
+                    ctx.rep.count(&format!("invalid_sequences_{tag}_operators_as_words"), 1);
+                    if let Err(p) = &got.code {
+                        ctx.rep.violation(&format!("C11 panic at {}", ploc(p)), format!("find {:?}: {p}", args), json!({"prop":"C11","argv":args}));
+                        continue;
+                    }
+                    if let Some((why, detail)) = not_rejected(&got) {
+                        let sig = format!("C11 malformed expression {why} when operators are spelled as words: {}", bad_pair(&respelled));
+                        ctx.rep.violation(&sig, format!("find {:?}\n{detail}", args), json!({"prop":"C11","argv":args,"must_reject":true}));
+                    }
+                }
+            }
             if tag == "delete" && !tree_intact(&sbx) {
                 ctx.rep.violation(
                     "C11 malformed expression with -delete removed files",
